@@ -65,9 +65,9 @@ class C12(Config):
         "axioms: none (every theorem is closed under the global context)",
         "vlib/props/c12.py extractors (COIN, MAX_MONEY, QCHAR_ENCODE additions, qchars literal)",
         "harness/pure/src/bin/c12.rs printers, address-table builder and catch_unwind wrappers; vlib case-file generator",
-        "address oracle: ZcashAddress::{try_from_encoded,encode,can_receive_memo,is_transparent_only} are a Section "
-        "parameter with the hypotheses decode(encode a) = a and `encode a` non-empty alphanumeric (checked on every "
-        "table entry by wf_case; C10 is the property about the address codec itself)",
+        "address oracle: ZcashAddress::{try_from_encoded,encode,can_receive_memo,is_transparent_only} are Section "
+        "parameters; hypotheses per occurring address: decode(encode a) = a, `encode a` non-empty alphanumeric (checked on "
+        "every table entry by wf_case; proved sufficient by the bridge theorem; C10 is the property about the codec itself)",
         "models (validated by the correspondence, not verified against their crates' sources) of nom 7.1.3 "
         "combinators, percent-encoding 2.3.1, base64 0.22.1 URL_SAFE_NO_PAD, str::from_utf8, u64 Display/FromStr",
     ]
@@ -75,16 +75,12 @@ class C12(Config):
                    "Rust String/&str values are valid UTF-8, Zatoshis <= MAX_MONEY, MemoBytes is 512 bytes, BTreeMap keys "
                    "strictly increasing (type invariants; stated as wf_request in the theorems)"]
     partial_clauses = [
-        "TransactionRequest::new accepts exactly the valid sequential requests: evaluated by prop_case on every New case "
-        "and on the closed witnesses of C12_new_refuses_reserved_names; no general theorem about request_new",
-        "Payment::new, from_indexed and total (= total_spec): evaluated by prop_case only",
-        "surface rules of an accepted URI (index suffix 1..9999 without leading zero, no req- parameter, number of URI "
-        "parameters = number of request fields, i.e. nothing dropped) are evaluated by prop_case (Spec.uri_rules_ok, "
-        "uri_param_count) and follow informally from C12_accepted_is_valid + the model; not stated as theorems",
-        "no bridge theorem run_case => prop_case; prop_case is evaluated independently on every case",
-        "the address codec (ZcashAddress encode/decode, C10) is an oracle: hypotheses decode(encode a) = a, encodings "
-        "non-empty alphanumeric; for Rust's structural ZcashAddress equality the first hypothesis fails on regtest "
-        "transparent/Sprout addresses (same strings as testnet) - the harness compares addresses by canonical encoding",
+        "the address codec (ZcashAddress encode/decode; property C10) stays an oracle: the request theorems assume, for "
+        "each address that occurs in the request or is returned by the decoder, decode(encode a) = a and `encode a` "
+        "non-empty alphanumeric (C12 addr_ok). Not instantiated with the C10 model: C10_kind_roundtrip gives "
+        "decode(encode a) = norm a under side conditions, but C10 has no theorem that encodings are alphanumeric and uses "
+        "another byte representation. For Rust's structural ZcashAddress equality decode(encode a) = a fails on regtest "
+        "transparent/Sprout addresses (same strings as testnet); the harness compares addresses by canonical encoding",
     ]
 
     @staticmethod
